@@ -56,6 +56,15 @@ func refSlot(ack bool, src, dst string, seq uint64) [32]byte {
 	return keccak([]byte(path), idx[:])
 }
 
+// RefSlot is refSlot for other property packages (C02 drives ETH/BSC counterparties at message level
+// and judges their proofs with this reference).
+func RefSlot(ack bool, src, dst string, seq uint64) [32]byte { return refSlot(ack, src, dst, seq) }
+
+// RefVerify is refVerify for other property packages.
+func RefVerify(proofJSON []byte, root [32]byte, contract []byte, slot, value [32]byte) (RefResult, RefInfo) {
+	return refVerify(proofJSON, root, contract, slot, value)
+}
+
 // ---- text layer -------------------------------------------------------------------------------
 
 // parseHex reads hex text the way Ethereum JSON does: optional 0x/0X prefix, either case, an odd
